@@ -178,19 +178,36 @@ fn bucket(name: &str, err: Decimal, tol: Decimal) -> String {
 struct Observed {
     obs: Vec<Obs>,
     panic: Option<String>,
+    /// how often the run continued on a copy restored from its serialised form
+    restores: u32,
 }
 
 /// Feed `values` to a fresh real `DataSetSummary`, recording the public fields after every update.
 fn observe(values: &[Decimal]) -> Observed {
     let mut summary = DataSetSummary::default();
     let mut obs = Vec::with_capacity(values.len());
+    let mut restores = 0u32;
     for (i, x) in values.iter().copied().enumerate() {
         if let Err(msg) = catch(|| summary.update(x)) {
-            return Observed { obs, panic: Some(format!("update #{} with {x} panicked: {msg}", i + 1)) };
+            return Observed { obs, panic: Some(format!("update #{} with {x} panicked: {msg}", i + 1)), restores };
         }
         obs.push(Obs::of(i + 1, &summary));
+        // a running summary is state that gets persisted and restored (it is `Serialize + Deserialize` and part
+        // of the engine state / audit snapshots): at some prefixes the run continues on a restored copy
+        if (i * 7 + values.len()) % 5 == 0 {
+            match serde_json::to_string(&summary).ok().and_then(|text| serde_json::from_str::<DataSetSummary>(&text).ok()) {
+                Some(restored) => {
+                    if restored != summary {
+                        return Observed { obs, panic: Some(format!("RESTORE after update #{}: the restored summary differs from the persisted one: {restored:?} vs {summary:?}", i + 1)), restores };
+                    }
+                    summary = restored;
+                    restores += 1;
+                }
+                None => return Observed { obs, panic: Some(format!("RESTORE after update #{}: the summary does not survive a serde_json round trip", i + 1)), restores },
+            }
+        }
     }
-    Observed { obs, panic: None }
+    Observed { obs, panic: None, restores }
 }
 
 /// Judge the observations of one run after every update.
@@ -208,7 +225,9 @@ fn judge(values: &[Decimal], seen: &Observed, stats: &mut RunStats) -> Result<()
     for (i, x) in values.iter().copied().enumerate() {
         let k = i + 1;
         let Some(o) = seen.obs.get(i) else {
-            return Err(("panic_in_dataset_update", seen.panic.clone().unwrap_or_else(|| format!("no observation after update #{k}"))));
+            let msg = seen.panic.clone().unwrap_or_else(|| format!("no observation after update #{k}"));
+            let sig = if msg.starts_with("RESTORE") { "summary_changed_by_persisting_and_restoring" } else { "panic_in_dataset_update" };
+            return Err((sig, msg));
         };
         stats.steps += 1;
 
@@ -317,6 +336,9 @@ fn judge(values: &[Decimal], seen: &Observed, stats: &mut RunStats) -> Result<()
 /// Observe + judge; returns the observations as well (they are logged whatever the verdict).
 fn run_sequence(values: &[Decimal], stats: &mut RunStats) -> (Observed, Result<(), Fail>) {
     let seen = observe(values);
+    if seen.restores > 0 {
+        stats.cells.push("state:continued_on_a_restored_copy");
+    }
     let res = judge(values, &seen, stats);
     (seen, res)
 }
@@ -655,6 +677,7 @@ fn main() {
     report.require("len:1");
     report.require("len:2-12");
     report.require("check:batch_prefix");
+    report.require("state:continued_on_a_restored_copy");
     report.require("check:permutation_compared");
     report.require("state:variance_zero");
     report.require("state:variance_positive");
